@@ -90,6 +90,14 @@ func c16Exec(t *testing.T, plan Plan, keepTrace bool) *RunResult {
 					time.Sleep(tw.Gap)
 				}
 				st, pre, redact := c16Final(w, tw, side)
+				if v := tw.str("redir"); v != "" {
+					if st.Str == nil {
+						st.Str = map[string]string{}
+					} else {
+						st.Str = copyMap(st.Str)
+					}
+					st.Str["redir"] = v
+				}
 				precond[side] = pre
 				if pre != "" {
 					return
@@ -263,6 +271,9 @@ func c16Run(t *testing.T, seed uint64, tier string) *RunResult {
 	}
 	if r.Chance(1, 3) {
 		tw.Str["path"] = "otp"
+	}
+	if r.Chance(1, 3) {
+		tw.Str["redir"] = []string{"/after/login", "/welcome?x=1", "relative"}[r.Intn(3)]
 	}
 	if sc == "a" {
 		// make sure the account is locked: by the operator or by failures
